@@ -22,7 +22,7 @@ _COMMON_NOTE = ("Sequential consistency at the granularity of the hook sites (we
                 "(Backend/UQueue.lean: growth by Uspsc.growDecision, shrink, buffer switch with the F25 retry); libfmt/PatternFormatter are bypassed "
                 "by a '%(message)' pattern (C12/C04 cover them); all four FrontendOptions builds of H2 are compared line by line with the model. "
                 "The theorem bundles A-V are proved for the bounded machine; for the unbounded machine conservation, chain coherence, the "
-                "emptiness test and the C09 grant-after-drain are proved for every operation list (bundle W, Props/C03U.lean), the other "
+                "emptiness test and the C09 grant-after-drain are proved for every operation list (bundle X, Props/C03U.lean), the other "
                 "properties are tied by the correspondence and the oracles only.")
 
 _SCOPE = ("Theorems quantify over every `ops : List Op` of the backend model: frontend calls of any number of threads (log calls of every kind, "
